@@ -25,10 +25,10 @@ theorem noHit_early {c : LCfg} {s1 : LState} (N : BTNoHit c s1 body tail acq) (t
   N.early t h1 _ (List.getElem?_eq_getElem _)
 
 /-- no hit at a tail tick: by hypothesis -/
-theorem noHit_tail {c : LCfg} {s1 : LState} (N : BTNoHit c s1 body tail acq) (t : Nat)
+theorem noHit_tail {c : LCfg} {s1 : LState} (N : ∀ t, body.length ≤ t → NoHitAt c s1 (body ++ tail) t) (t : Nat)
     (h1 : body.length ≤ t) (h2 : t < (body ++ tail).length) :
     NoHit c (lrunState c s1 ((body ++ tail).take t)) ((body ++ tail)[t]).1 :=
-  N.late t h1 _ (List.getElem?_eq_getElem _)
+  N t h1 _ (List.getElem?_eq_getElem _)
 
 theorem open_body (H : BurstObserved' pl body tail acq rel) (t : Nat)
     (h1 : acq + 31 ≤ t) (h2 : t < body.length) :
@@ -37,7 +37,7 @@ theorem open_body (H : BurstObserved' pl body tail acq rel) (t : Nat)
   exact H.open_ok t h2 h1
 
 /-- once 32 correct bits are in the correlator, its error is the window error of the frame -/
-theorem err_body (H : BurstObserved' pl body tail acq rel) (c : LCfg) (s : LState) (t : Nat)
+theorem err_body (H : BurstTracked pl body tail acq rel) (c : LCfg) (s : LState) (t : Nat)
     (h1 : acq + 31 ≤ t) (h2 : t < body.length) :
     errOf (lrunState c s ((body ++ tail).take t)) ((body ++ tail)[t]'(by rw [List.length_append]; omega)).1
       = werr (frameOf pl) t := by
@@ -54,7 +54,7 @@ theorem err_body (H : BurstObserved' pl body tail acq rel) (c : LCfg) (s : LStat
     rw [H.bits_ok _ hm (by omega), bitsOf_getD]
   rw [hb]
 
-theorem head_true (H : BurstObserved' pl body tail acq rel) (c : LCfg) (s : LState) (t : Nat)
+theorem head_true (H : BurstTracked pl body tail acq rel) (c : LCfg) (s : LState) (t : Nat)
     (h1 : acq + 31 ≤ t) (h2 : t < body.length + 31 + rel) (h3 : t < (body ++ tail).length) :
     headOf (lrunState c s ((body ++ tail).take t)) ((body ++ tail)[t]).1 = true := by
   rw [headOf_run c s (body ++ tail) t (by omega) h3]
@@ -64,15 +64,17 @@ theorem head_true (H : BurstObserved' pl body tail acq rel) (c : LCfg) (s : LSta
   · rw [xs_tail body tail _ (by omega) (by omega)]
     exact H.rel_hold _ _ (by omega)
 
-theorem head_false (H : BurstObserved' pl body tail acq rel) (c : LCfg) (s : LState) (t : Nat)
-    (h2 : body.length + 31 + rel ≤ t) (h3 : t < (body ++ tail).length) :
+theorem head_false (H : BurstTracked pl body tail acq rel) (c : LCfg) (s : LState) (t : Nat)
+    (h2 : body.length + 31 + rel = t) (h3 : t < (body ++ tail).length) :
     headOf (lrunState c s ((body ++ tail).take t)) ((body ++ tail)[t]).1 = false := by
   rw [headOf_run c s (body ++ tail) t (by omega) h3]
   rw [xs_tail body tail _ (by omega) (by omega)]
-  exact H.rel_drop _ _ (by omega)
+  have e : t - 31 - body.length = rel := by omega
+  simp only [e]
+  exact H.rel_drop _
 
 /-- the equalizer's decision at the byte tick that ends correlator byte `q` is transmitted byte `q - 3` -/
-theorem eq_byte (H : BurstObserved' pl body tail acq rel) (q : Nat) (h3 : 3 ≤ q)
+theorem eq_byte (H : BurstTracked pl body tail acq rel) (q : Nat) (h3 : 3 ≤ q)
     (hq : q - 3 < (frameOf pl).length) (hlt : 8 * q + 7 < (body ++ tail).length) :
     ((body ++ tail)[8 * q + 7]).2 = (frameOf pl).getD (q - 3) 0 := by
   have hlen := H.body_len
